@@ -41,7 +41,7 @@ func isErrVerdict(e sipsp.ErrorHdr) bool {
 
 func evalNum(c CaseNum) Result {
 	d := []byte(c.Digits)
-	if !allDigits(d) || len(d) > 60 {
+	if !allDigits(d) || len(d) > 1200 {
 		return Result{Skip: true}
 	}
 	v := decToBig(string(d))
